@@ -147,6 +147,36 @@ func runLink(i int, role, auth string, rep int) map[string]any {
 	return o
 }
 
+// runRoles: the role each end of one session takes under its own configuration (read from the real session tracker)
+func runRoles(i int, aNoListen, bNoListen bool, rep int) map[string]any {
+	lg := logrus.New()
+	lg.SetOutput(io.Discard)
+	le := logrus.NewEntry(lg)
+	an, bn := fmt.Sprintf("webrtc/role/A%d", rep), fmt.Sprintf("webrtc/role/B%d", rep)
+	role := func(local, remote string, noListen bool) (bool, string) {
+		ctx, cancel := context.WithTimeout(context.Background(), 150*time.Millisecond)
+		defer cancel()
+		w, err := webrtc.NewWebRTC(ctx, le, nil, &webrtc.Config{DisableListen: noListen}, vio.Key(local), &linkRec{})
+		if err != nil {
+			return false, err.Error()
+		}
+		dc, other := newChanPair()
+		_ = other.Close()
+		off, _ := w.VerifExecuteLink(ctx, vio.PeerID(remote).String(), dc)
+		return off, ""
+	}
+	ao, e1 := role(an, bn, aNoListen)
+	bo, e2 := role(bn, an, bNoListen)
+	n := 0
+	if ao {
+		n++
+	}
+	if bo {
+		n++
+	}
+	return map[string]any{"i": i, "offerers": n, "err": e1 + e2}
+}
+
 func main() {
 	mode := flag.String("mode", "signal", "")
 	_ = flag.String("name", "", "ignored")
@@ -160,14 +190,19 @@ func main() {
 		if *mode == "link" {
 			var w struct {
 				In struct {
-					Role, Auth string
-					Rep        int
+					Kind, Role, Auth     string
+					Rep                  int
+					ANoListen, BNoListen bool
 				}
 			}
 			if err := json.Unmarshal(raw, &w); err != nil {
 				vio.Fatal("%v", err)
 			}
-			out.Emit(runLink(i, w.In.Role, w.In.Auth, w.In.Rep))
+			if w.In.Kind == "roles" {
+				out.Emit(runRoles(i, w.In.ANoListen, w.In.BNoListen, w.In.Rep))
+			} else {
+				out.Emit(runLink(i, w.In.Role, w.In.Auth, w.In.Rep))
+			}
 			continue
 		}
 		if *mode == "offerer" {
